@@ -39,27 +39,79 @@ theorem walkExt_fuel_irrelevant : ∀ (f1 f2 : Nat) (cur : UInt8) (b : Bytes), b
         exact walkExt_fuel_irrelevant f1 f2 _ _ (by simp; omega) (by simp; omega)
     · rfl
 
-/-- **Refinement.**  For every request stack of the specification and *every* buffer, the matcher returns what the
-    byte-level specification demands: `true` where the buffer is the mirrored reply, `false` where it differs from
-    it in a matched field (nothing is demanded where the specification says `unspec`). -/
+/-- The same for the specification's walk over the reply's extension headers: `fuel = length` is the unbounded walk. -/
+theorem skipExts_fuel_irrelevant : ∀ (f1 f2 : Nat) (cur : UInt8) (b : Bytes), b.length ≤ f1 → b.length ≤ f2 →
+    skipExts f1 cur b = skipExts f2 cur b
+  | 0, 0, _, _, _, _ => rfl
+  | 0, f2 + 1, cur, b, h1, _ => by
+    have hn : ¬ ((b.getD 1 0).toNat + 1) * 8 < b.length := by omega
+    by_cases hw : v6Walkable cur = true <;> simp only [skipExts, hw, hn, if_true, if_false, Bool.false_eq_true]
+  | f1 + 1, 0, cur, b, _, h2 => by
+    have hn : ¬ ((b.getD 1 0).toNat + 1) * 8 < b.length := by omega
+    by_cases hw : v6Walkable cur = true <;> simp only [skipExts, hw, hn, if_true, if_false, Bool.false_eq_true]
+  | f1 + 1, f2 + 1, cur, b, h1, h2 => by
+    unfold skipExts
+    split
+    · dsimp only
+      split
+      · split
+        · rfl
+        · exact skipExts_fuel_irrelevant f1 f2 _ _ (by simp; omega) (by simp; omega)
+      · rfl
+    · rfl
+
+/-- **Refinement.**  For every request stack of the specification — link: Ethernet II, 802.3, 802.1Q tags nested any
+    number of times, loopback, RadioTap; network: IPv4, IPv6; above: TCP, UDP, ICMP, ICMPv6 echo, DNS, BootP / DHCP,
+    DHCPv6, ARP, opaque payload — and *every* buffer, the matcher returns what the byte-level specification demands:
+    `true` where the buffer is a mirrored reply (behind any IPv4 / TCP option list and any chain of IPv6 extension
+    headers the specification follows) or an ICMP destination unreachable quoting the request's IPv4 header, `false`
+    where it differs from the mirrored reply in a matched field (nothing is demanded where the specification says
+    `unspec`). -/
 theorem model_refines_spec (r : List SLayer) (b : Bytes) : (demand r b).agrees (matchStack (toModel r) b) :=
   refines r b
 
-/-- **mirror_accepted.**  For every request over {Ethernet, 802.1Q tags} / {IPv4, IPv6} / {TCP, TCP+payload,
-    UDP+payload, UDP+DNS, ICMP echo / timestamp / address-mask, ICMPv6 echo} (any nesting with the right field widths,
-    arbitrary field values) the serialisation of the mirrored reply is recognised. -/
-theorem mirror_accepted (r : List SLayer) (h : wfReq r = true) :
-    matchStack (toModel r) (serR (mirror r)) = .ok true := by
-  have h2 := refines r (serR (mirror r))
-  rw [demand_serR r (mirror r) (shape_mirror r h), verdictR_mirror r h] at h2
+/-- **mirror_accepted**, all field values.  Every mirrored reply `m` of `r` is recognised: the matched fields are the
+    mirrored ones (`isMirror`), every other header field, the IPv4 and TCP option lists, the chain of IPv6 extension
+    headers (hop-by-hop, routing, first-fragment, destination options, mobility — `extOk`), the TCP flags (SYN-ACK,
+    RST, …), the DNS / BootP / DHCPv6 / ARP / ICMP bodies and every payload are arbitrary (`shape` fixes only the field
+    widths).  Under an IPv4 layer `isMirror` also holds for the ICMP destination unreachable quoting the request. -/
+theorem mirrored_reply_accepted (r : List SLayer) (m : List RLayer) (hs : shape r m = true) (hm : isMirror r m = true) :
+    matchStack (toModel r) (serR m) = .ok true := by
+  have h2 := refines r (serR m)
+  rw [demand_serR r m hs, verdictR_isMirror r m hm] at h2
   exact h2
 
+/-- **mirror_accepted** for the canonical mirror: for every request of the grammar `wfReq` (arbitrary field values)
+    the serialisation of `mirror r` is recognised. -/
+theorem mirror_accepted (r : List SLayer) (h : wfReq r = true) :
+    matchStack (toModel r) (serR (mirror r)) = .ok true :=
+  mirrored_reply_accepted r (mirror r) (shape_mirror r h) (isMirror_mirror r h)
+
+/-- **The second kind of accepted reply.**  An IPv4 packet from anybody to anybody, with any option list, carrying an
+    ICMP destination unreachable (any code, checksum, unused word) whose quoted datagram starts with the 20 octets of
+    the request's IPv4 header — followed by anything — is recognised, whatever is above IPv4 in the request. -/
+theorem unreachable_quoting_accepted (hdr : Bytes) (r : List SLayer) (pre ck s d opts cc un1 un2 more : Bytes)
+    (hh : hdr.length = 20) (h1 : pre.length = 8) (h2 : ck.length = 2) (h3 : s.length = 4) (h4 : d.length = 4)
+    (ho4 : opts.length % 4 = 0) (ho : opts.length ≤ 40) (hc : cc.length = 3) (hu1 : un1.length = 2) (hu2 : un2.length = 2) :
+    matchStack (toModel (.ip4 hdr :: r)) (serR [.ip4 pre ck s d opts, .icmp 3 cc un1 un2 (hdr ++ more)]) = .ok true := by
+  have hq : quotes hdr [.icmp 3 cc un1 un2 (hdr ++ more)] = true := by
+    have e : slice (serR [.icmp 3 cc un1 un2 (hdr ++ more)]) 8 20 = hdr := by
+      simp [serR, slice_cons, slice_skip, slice_prefix, hc, hu1, hu2, hh]
+    have l : 28 ≤ (serR [.icmp 3 cc un1 un2 (hdr ++ more)]).length := by
+      simp [serR, hc, hu1, hu2, hh]; omega
+    simp [quotes, protoR, e, l]
+    simp [serR]
+  refine mirrored_reply_accepted _ _ ?_ ?_
+  · simp [shape, h1, h2, h3, h4, ho4, ho, hq]
+  · simp [isMirror, hq]
+
 /-- **stranger_rejected.**  A reply packet with the layer structure of the request (arbitrary values in every
-    field, matched or not; not an ICMP destination-unreachable quoting the request) that differs from the mirrored
-    reply in at least one matched field — reply destination address, reply source address when the request's
-    destination is unicast, either port, ICMP/ICMPv6 reply type, identifier, sequence number, DNS id, VLAN id — is
-    not recognised.  Single-field perturbations of `mirror r` are the special case `m = mirror r` with one field
-    replaced. -/
+    field, matched or not, arbitrary options / extension headers / payloads; not an ICMP destination unreachable
+    quoting the request) that differs from the mirrored replies in at least one matched field — reply destination
+    address, reply source address when the request's destination is unicast, either port, ICMP/ICMPv6 reply type,
+    identifier, sequence number, DNS id, VLAN id, BootP / DHCP transaction id, DHCPv6 transaction id or relay type, ARP
+    sender / target protocol address — is not recognised.  Single-field perturbations of a mirrored reply are the
+    special case `m` = that reply with one field replaced. -/
 theorem stranger_rejected (r : List SLayer) (m : List RLayer) (hs : shape r m = true)
     (hd : matchedFieldDiffers r m = true) : matchStack (toModel r) (serR m) = .ok false := by
   have h2 := refines r (serR m)
@@ -72,13 +124,24 @@ theorem mirror_is_not_a_stranger (r : List SLayer) (h : wfReq r = true) :
     shape r (mirror r) = true ∧ verdictR r (mirror r) = .accept :=
   ⟨shape_mirror r h, verdictR_mirror r h⟩
 
+/-- No packet is both: a mirrored reply never differs in a matched field. -/
+theorem mirror_and_stranger_exclusive (r : List SLayer) (m : List RLayer) (hs : shape r m = true)
+    (hm : isMirror r m = true) : matchedFieldDiffers r m = false := by
+  cases hd : matchedFieldDiffers r m
+  · rfl
+  · have h1 := mirrored_reply_accepted r m hs hm
+    have h2 := stranger_rejected r m hs hd
+    rw [h1] at h2
+    exact absurd h2 (by decide)
+
 /-! ### matchers outside the mirrored-reply specification: closed forms over all buffers -/
 
 /-- PDUCacher forwards: wrapping any chain changes nothing. -/
 theorem pducacher_forwards (st : List Layer) (b : Bytes) : matchStack (.cacher :: st) b = matchStack st b :=
   cacher_transparent st b
 
-/-- RawPDU matches everything, a class that keeps `PDU::matches_response` matches nothing. -/
+/-- RawPDU matches everything, a class that keeps `PDU::matches_response` (SLL, LLC, Dot11, …: `.other`) matches
+    nothing — a request whose outermost layer is SLL has no reply (PacketSender can neither send nor receive on it). -/
 theorem rawpdu_and_default (rest : List Layer) (b : Bytes) :
     matchStack (.raw :: rest) b = .ok true ∧ matchStack (.other :: rest) b = .ok false :=
   ⟨raw_always rest b, other_never rest b⟩
@@ -94,7 +157,8 @@ theorem arp_matches_iff (spa tpa : Bytes) (rest : List Layer) (b : Bytes) :
       .ok (decide (28 ≤ b.length) && (slice b 14 4 == tpa && slice b 24 4 == spa)) :=
   arp_char spa tpa rest b
 
-/-- DHCPv6: matched iff neither message is a relay message and the transaction ids agree. -/
+/-- DHCPv6: matched iff neither message is a relay message and the transaction ids agree; in particular a
+    relay-forward / relay-reply request (which has no transaction id) matches nothing. -/
 theorem dhcpv6_matches_iff (hdr : Bytes) (rest : List Layer) (b : Bytes) :
     matchStack (.dhcpv6 hdr :: rest) b =
       .ok (!(hdr.getD 0 0 == 12 || hdr.getD 0 0 == 13) && decide (4 ≤ b.length) &&
@@ -118,8 +182,8 @@ def exReq : List SLayer :=
 
 /-- its mirrored reply with the UDP source port changed -/
 def exStranger : List RLayer :=
-  [.eth [0, 0x11, 0x22, 0x33, 0x44, 0x55] [0x66, 0x77, 0x88, 0x99, 0xaa, 0xbb], .vlan [0x20, 0x64],
-   .ip4 [0, 0, 0, 0, 0, 0, 0, 64] [0, 0] [192, 168, 0, 2] [192, 168, 0, 1],
+  [.eth [0, 0x11, 0x22, 0x33, 0x44, 0x55] [0x66, 0x77, 0x88, 0x99, 0xaa, 0xbb], .vlan .ctag [0x20, 0x64],
+   .ip4 [0, 0, 0, 0, 0, 0, 0, 64] [0, 0] [192, 168, 0, 2] [192, 168, 0, 1] [],
    .udp [0, 0x36] [0x12, 0x34] [0, 0, 0, 0], .dns [0xbe, 0xef] [0x80, 0, 0, 0, 0, 0, 0, 0, 0, 0]]
 
 example : wfReq exReq = true := by decide
@@ -129,9 +193,158 @@ example : shape exReq exStranger = true ∧ matchedFieldDiffers exReq exStranger
 example : matchStack (toModel exReq) (serR exStranger) = .ok false := stranger_rejected exReq exStranger (by decide) (by decide)
 /-- the specification really demands something on these inputs -/
 example : demand exReq (serR (mirror exReq)) = .accept ∧ demand exReq (serR exStranger) = .reject := by decide
+
+/-! #### the widened relation is inhabited: one request / mirrored reply / stranger per new class -/
+
+/-- ICMPv6 echo over IPv6 / 802.1Q in 802.1Q / Ethernet -/
+def exReq6 : List SLayer :=
+  [.eth [0, 0x11, 0x22, 0x33, 0x44, 0x55] [0x66, 0x77, 0x88, 0x99, 0xaa, 0xbb], .vlan [0x00, 0x64], .vlan [0x20, 0x07],
+   .ip6 [0x20, 1, 0xd, 0xb8, 0, 0, 0, 0, 0, 0, 0, 0, 0, 0, 0, 1] [0x20, 1, 0xd, 0xb8, 0, 0, 0, 0, 0, 0, 0, 0, 0, 0, 0, 2],
+   .icmp6echo [0x12, 0x34] [0, 7]]
+
+/-- a mirrored reply behind hop-by-hop options, a first-fragment header and a 16-octet destination-options header,
+    with another priority on the inner tag, another flow label and hop limit, and echo data -/
+def exReply6 (id : Bytes) : List RLayer :=
+  [.eth [0, 0x11, 0x22, 0x33, 0x44, 0x55] [0x66, 0x77, 0x88, 0x99, 0xaa, 0xbb], .vlan .stag [0xe0, 0x64], .vlan .ctag [0x20, 0x07],
+   .ip6 [0x0a, 0xbc, 0xde, 0, 0x30] 3 [0x20, 1, 0xd, 0xb8, 0, 0, 0, 0, 0, 0, 0, 0, 0, 0, 0, 2]
+     [0x20, 1, 0xd, 0xb8, 0, 0, 0, 0, 0, 0, 0, 0, 0, 0, 0, 1]
+     [⟨0, 0, [1, 4, 0, 0, 0, 0]⟩, ⟨44, 0, [0, 1, 0xca, 0xfe, 0xba, 0xbe]⟩, ⟨60, 1, [1, 12, 0, 0, 0, 0, 0, 0, 0, 0, 0, 0, 0, 0]⟩],
+   .icmp6 129 [0, 0xab, 0xcd] id [0, 7] [1, 2, 3]]
+
+example : wfReq exReq6 = true := by decide
+example : (serR (exReply6 [0x12, 0x34])).length = 105 := by decide
+example : matchStack (toModel exReq6) (serR (exReply6 [0x12, 0x34])) = .ok true :=
+  mirrored_reply_accepted _ _ (by decide) (by decide)
+example : matchStack (toModel exReq6) (serR (exReply6 [0x12, 0x35])) = .ok false :=
+  stranger_rejected _ _ (by decide) (by decide)
+/-- the loop really walks: the same reply with the chain cut after the fixed header is not the reply -/
+example : matchStack (toModel exReq6) ((serR (exReply6 [0x12, 0x34])).take 62) = .ok false := by decide
+
+/-- a TCP SYN to 10.0.0.2:443 over Ethernet; answered by a RST-ACK carrying options, behind IPv4 options -/
+def exReqT : List SLayer :=
+  [.eth [0, 0x11, 0x22, 0x33, 0x44, 0x55] [0x66, 0x77, 0x88, 0x99, 0xaa, 0xbb],
+   .ip4 [0x45, 0, 0, 0x28, 0, 1, 0, 0, 0x40, 6, 0x66, 0xcd, 10, 0, 0, 1, 10, 0, 0, 2], .tcp [0xc0, 0x01] [0x01, 0xbb]]
+
+def exReplyT (sport : Bytes) : List RLayer :=
+  [.eth [0, 0x11, 0x22, 0x33, 0x44, 0x55] [0x66, 0x77, 0x88, 0x99, 0xaa, 0xbb],
+   .ip4 [0, 0, 0x30, 0x99, 0x99, 0x40, 0, 0x3f] [0xab, 0xcd] [10, 0, 0, 2] [10, 0, 0, 1] [1, 1, 1, 0],
+   .tcp sport [0xc0, 0x01] [0, 0, 0, 0, 1, 2, 3, 5] 9 [0x14, 0, 0, 0, 0, 0, 0] [2, 4, 5, 0xb4]]
+
+example : matchStack (toModel exReqT) (serR (exReplyT [0x01, 0xbb])) = .ok true :=
+  mirrored_reply_accepted _ _ (by decide) (by decide)
+example : matchStack (toModel exReqT) (serR (exReplyT [0x01, 0xba])) = .ok false :=
+  stranger_rejected _ _ (by decide) (by decide)
+
+/-- the same probe answered by a router: destination unreachable quoting the header, from 192.0.2.1 -/
+def exUnreach (quote : Bytes) : List RLayer :=
+  [.eth [0, 0x11, 0x22, 0x33, 0x44, 0x55] [0x66, 0x77, 0x88, 0x99, 0xaa, 0xbb],
+   .ip4 [0xc0, 0, 0x38, 0, 0, 0, 0, 0xff] [0, 0] [192, 0, 2, 1] [10, 0, 0, 1] [],
+   .icmp 3 [1, 0, 0] [0, 0] [0, 0] (quote ++ [0xc0, 0x01, 0x01, 0xbb, 0, 0, 0, 0])]
+
+example : matchStack (toModel exReqT)
+    (serR (exUnreach [0x45, 0, 0, 0x28, 0, 1, 0, 0, 0x40, 6, 0x66, 0xcd, 10, 0, 0, 1, 10, 0, 0, 2])) = .ok true :=
+  mirrored_reply_accepted _ _ (by decide) (by decide)
+/-- quoting a header with another identification: not ours (here the reply's source is a stranger's, too) -/
+example : matchStack (toModel exReqT)
+    (serR (exUnreach [0x45, 0, 0, 0x28, 0, 2, 0, 0, 0x40, 6, 0x66, 0xcc, 10, 0, 0, 1, 10, 0, 0, 2])) = .ok false := by decide
+
+/-- DHCP renew (unicast) and its ACK with a vendor area; a DHCPv6 request and its reply; an ARP request and its reply -/
+def exReqD : List SLayer :=
+  [.ip4 [0x45, 0, 1, 0x48, 0, 1, 0, 0, 0x40, 17, 0, 0, 10, 0, 0, 9, 10, 0, 0, 1], .udp [0, 68] [0, 67], .bootp [0xde, 0xad, 0xbe, 0xef]]
+def exReplyD (xid : Bytes) : List RLayer :=
+  [.ip4 [0, 0, 0, 0, 0, 0, 0, 64] [0, 0] [10, 0, 0, 1] [10, 0, 0, 9] [], .udp [0, 67] [0, 68] [1, 0x34, 0, 0],
+   .bootp [2, 1, 6, 0] xid (List.replicate 228 7 ++ [0x63, 0x82, 0x53, 0x63, 53, 1, 5, 255])]
+example : wfReq exReqD = true := by decide
+set_option maxRecDepth 8192 in
+example : matchStack (toModel exReqD) (serR (exReplyD [0xde, 0xad, 0xbe, 0xef])) = .ok true :=
+  mirrored_reply_accepted _ _ (by decide) (by decide)
+set_option maxRecDepth 8192 in
+example : matchStack (toModel exReqD) (serR (exReplyD [0xde, 0xad, 0xbe, 0xee])) = .ok false :=
+  stranger_rejected _ _ (by decide) (by decide)
+
+def exReqD6 : List SLayer :=
+  [.ip6 [0xfe, 0x80, 0, 0, 0, 0, 0, 0, 0, 0, 0, 0, 0, 0, 0, 1] [0xfe, 0x80, 0, 0, 0, 0, 0, 0, 0, 0, 0, 0, 0, 0, 0, 2],
+   .udp [2, 0x22] [2, 0x23], .dhcpv6 [3, 0xaa, 0xbb, 0xcc]]
+def exReplyD6 (t : UInt8) (xid : Bytes) : List RLayer :=
+  [.ip6 [0, 0, 0, 0, 12] 64 [0xfe, 0x80, 0, 0, 0, 0, 0, 0, 0, 0, 0, 0, 0, 0, 0, 2] [0xfe, 0x80, 0, 0, 0, 0, 0, 0, 0, 0, 0, 0, 0, 0, 0, 1] [],
+   .udp [2, 0x23] [2, 0x22] [0, 12, 0, 0], .dhcpv6 t xid [0, 1, 0, 0]]
+example : wfReq exReqD6 = true := by decide
+example : matchStack (toModel exReqD6) (serR (exReplyD6 7 [0xaa, 0xbb, 0xcc])) = .ok true :=
+  mirrored_reply_accepted _ _ (by decide) (by decide)
+example : matchStack (toModel exReqD6) (serR (exReplyD6 7 [0xaa, 0xbb, 0xcd])) = .ok false :=
+  stranger_rejected _ _ (by decide) (by decide)
+example : matchStack (toModel exReqD6) (serR (exReplyD6 13 [0xaa, 0xbb, 0xcc])) = .ok false :=
+  stranger_rejected _ _ (by decide) (by decide)
+
+def exReqA : List SLayer := [.eth [0, 0x11, 0x22, 0x33, 0x44, 0x55] [255, 255, 255, 255, 255, 255], .arp [10, 0, 0, 1] [10, 0, 0, 2]]
+def exReplyA (spa : Bytes) : List RLayer :=
+  [.eth [0, 0x11, 0x22, 0x33, 0x44, 0x55] [255, 255, 255, 255, 255, 255],
+   .arp [0, 1, 8, 0, 6, 4, 0, 2, 0x66, 0x77, 0x88, 0x99, 0xaa, 0xbb] spa [0, 0x11, 0x22, 0x33, 0x44, 0x55] [10, 0, 0, 1] [0, 0]]
+example : wfReq exReqA = true := by decide
+example : matchStack (toModel exReqA) (serR (exReplyA [10, 0, 0, 2])) = .ok true :=
+  mirrored_reply_accepted _ _ (by decide) (by decide)
+example : matchStack (toModel exReqA) (serR (exReplyA [10, 0, 0, 3])) = .ok false :=
+  stranger_rejected _ _ (by decide) (by decide)
+
+/-- the other link layers: 802.3, loopback, RadioTap (a 12-octet capture header) -/
+example : matchStack (toModel [.dot3 [0, 1, 2, 3, 4, 5] [6, 7, 8, 9, 10, 11], .payload])
+    (serR [.dot3 [0, 1, 2, 3, 4, 5] [6, 7, 8, 9, 10, 11] [0, 3], .payload [1, 2, 3]]) = .ok true :=
+  mirrored_reply_accepted _ _ (by decide) (by decide)
+example : matchStack (toModel [.dot3 [0, 1, 2, 3, 4, 5] [6, 7, 8, 9, 10, 11], .payload])
+    (serR [.dot3 [0, 1, 2, 3, 4, 5] [6, 7, 8, 9, 10, 12] [0, 3], .payload [1, 2, 3]]) = .ok false :=
+  stranger_rejected _ _ (by decide) (by decide)
+example : matchStack (toModel [.loopback [2, 0, 0, 0], .ip4 [0x45, 0, 0, 28, 0, 1, 0, 0, 64, 1, 0, 0, 127, 0, 0, 1, 127, 0, 0, 1], .icmp .echo [0, 1] [0, 2]])
+    (serR [.loopback [2, 0, 0, 0], .ip4 [0, 0, 28, 0, 9, 0, 0, 64] [0, 0] [127, 0, 0, 1] [127, 0, 0, 1] [], .icmp 0 [0, 0xff, 0xfc] [0, 1] [0, 2] []]) = .ok true :=
+  mirrored_reply_accepted _ _ (by decide) (by decide)
+example : matchStack (toModel [.radiotap, .payload]) (serR [.radiotap [0, 0] [0x2e, 0x48, 0, 0, 0, 2, 0x6c, 0x09], .payload [0xd4, 0]]) = .ok true :=
+  mirrored_reply_accepted _ _ (by decide) (by decide)
+
+/-! #### observations on the IPv6 walk that are outside the relation (pinned in corpus/C14/regress.ops) -/
+
+/-- the reserved octet of a fragment header is read as a length: with reserved = 1 the walk skips 16 octets — the
+    fragment header *and* the 8-octet echo reply behind it — where RFC 8200 §4.5 says 8 ("ignored on reception") -/
+example : walkExt 16 44 [58, 1, 0, 0, 0, 0, 0, 1, 129, 0, 0, 0, 0x12, 0x34, 0, 7] = .ok (some []) ∧
+    skipExts 16 44 [58, 1, 0, 0, 0, 0, 0, 1, 129, 0, 0, 0, 0x12, 0x34, 0, 7] = none := by decide
+/-- a reply that ends exactly with an extension header is not followed (`total_sz > 8`), one more octet and it is -/
+example : walkExt 8 0 [61, 0, 1, 4, 0, 0, 0, 0] = .ok none ∧ walkExt 9 0 [61, 0, 1, 4, 0, 0, 0, 0, 0] = .ok (some [0]) ∧
+    skipExts 8 0 [61, 0, 1, 4, 0, 0, 0, 0] = none := by decide
+
 /-- `matcher_noFault` is about code that does read the buffer: the guards are what keeps these reads inside -/
 example : matchStack [.radiotap] [] = .ok false ∧ matchStack [.radiotap] [0, 0, 8] = .ok false ∧
     matchStack [.radiotap, .raw] [0, 0, 8, 0, 0, 0, 0, 0] = .ok true := by decide
 example : rdN "x" [1, 2, 3] 2 2 = .fault "x" 4 3 := by decide
+
+/-! ### known finding KF-C14-5: the reserved octet of a fragment header -/
+
+/-- **Full statement** (RFC 8200 §4.5 to the letter: the reserved octet of a fragment header is "ignored on
+    reception").  Wherever a receiver's walk over the reply's extension headers arrives at an upper-layer header, the
+    loop of `IPv6::matches_response` arrives at the same octets. -/
+def walk_follows_rfc8200 : Prop :=
+  ∀ (f : Nat) (cur : UInt8) (b : Bytes) (p : UInt8) (b' : Bytes),
+    skipExtsRFC f cur b = some (p, b') → isExtHdr p = false → walkExt f cur b = .ok (some b')
+
+/-- It does not hold: the loop takes the reserved octet for a length.  A first-fragment header with reserved = 1 in
+    front of an 8-octet ICMPv6 echo reply: the receiver of RFC 8200 arrives at the echo reply, the loop behind it
+    (replayed on the real code: corpus/C14/regress.ops, `#corpus:v6-fragment-reserved-octet-set…`). -/
+theorem walk_follows_rfc8200_fails : ¬ walk_follows_rfc8200 := by
+  intro h
+  have := h 16 44 [58, 1, 0, 0, 0, 0, 0, 1, 129, 0, 0, 0, 0x12, 0x34, 0, 7] 58 [129, 0, 0, 0, 0x12, 0x34, 0, 7] (by decide) (by decide)
+  revert this
+  decide
+
+/-- **Partial**: it holds for every reply on whose chain no whole fragment header has its reserved octet set
+    (`fragReservedSet`, decidable) — that is every reply of a sender conforming to RFC 8200 ("initialized to zero for
+    transmission"). -/
+theorem walk_follows_rfc8200_partial (f : Nat) (cur : UInt8) (b : Bytes) (p : UInt8) (b' : Bytes)
+    (hex : fragReservedSet f cur b = false) (h : skipExtsRFC f cur b = some (p, b')) (hp : isExtHdr p = false) :
+    walkExt f cur b = .ok (some b') := by
+  rw [skipExtsRFC_eq f cur b hex] at h
+  exact walkExt_of_skipExts f cur b p b' h hp
+
+/-- the excluded region is not everything: the chain of `exReply6` (hop-by-hop, first fragment, destination options) -/
+example : fragReservedSet 65 0 ((serR (exReply6 [0x12, 0x34])).drop 62) = false ∧
+    (skipExtsRFC 65 0 ((serR (exReply6 [0x12, 0x34])).drop 62)).isSome = true := by decide
+/-- and the witness of the refutation is inside it -/
+example : fragReservedSet 16 44 [58, 1, 0, 0, 0, 0, 0, 1, 129, 0, 0, 0, 0x12, 0x34, 0, 7] = true := by decide
 
 end Tins.Props.C14
